@@ -17,12 +17,14 @@ func init() {
 			"N10 the module call graph is acyclic and every for loop is a range or a counted loop. " +
 			"(E2-N12-map) every literal of a set type allocates the maps its methods write through (a write into a nil map panics). " +
 			"(E2-N13) a position returned by slices / strings / bytes Index* is used as an index or bound only on a path that decided a comparison of it (the -1 of `not found`); today no production code uses such a position as an index, the rule is armed for new code. " +
+			"(E2-N3-ns) premise of the exceptions for `peer.GetPeerNamespace()` in the admin-policy matchers: the functions of package eval that supply a pod peer's namespace object answer `nil, nil` for representative pods only. " +
 			"NOT decided: panics inside cli-runtime, yaml, apimachinery conversion or np-guard/models on other preconditions; resource exhaustion; termination of library code."
 		rules.NilGuards(p, r)
 		rules.NilAuxiliary(p, r)
 		rules.ConstructorCompleteness(p, r)
 		rules.PeerBeforePorts(p, r, "E2-N3-pre")
 		rules.AdminSelectionExcludesIPs(p, r, "E2-N3-sel")
+		rules.NamespaceObjectOnlyNilForRepresentatives(p, r, "E2-N3-ns")
 		rules.MapFieldsAllocated(p, r, "E2-N12-map")
 		rules.SearchResultIndexGuarded(p, r, "E2-N13")
 		r.Floor("E2-N1", 18)
